@@ -86,7 +86,7 @@ def call(agent, markets):
 
 # ------------------------------------------------------------------------------------------------ FCN
 WEIGHTS = [(1, 0, 0), (0, 1, 0), (0, 0, 1), (1, 1, 1), (2, 1, 0), (1, 0, 3), (0, 2, 1), (3, 1, 2)]
-WINDOWS = [(1, 1), (2, 1), (3, 2), (2, 3)]          # (time window, mean reversion time)
+WINDOWS = [(1, 1), (2, 1), (3, 2), (2, 3), (2, 0), (3, 0)]          # (time window, mean reversion time; 0 counts as 1)
 
 
 def fcn_cases(tier, seed):
@@ -96,7 +96,8 @@ def fcn_cases(tier, seed):
     if tier == "quick":
         grid = rng.sample(grid, 900)
     out = []
-    for gi, (a, af, ap, k, (wF, wC, wN), (W, tr), margin, other_first, early) in enumerate(grid):
+    for gi, (a, af, ap, k, (wF, wC, wN), (W, tr_cfg), margin, other_first, early) in enumerate(grid):
+        tr = max(tr_cfg, 1)           # a configured mean reversion time of 0 is guarded by max(., 1) in the documented formula
         normal = gi % 4 == 0          # margin type "normal": the quote is noised, the SIDE still follows the expected price
         twin = gi % 3 == 0            # a second accessible market in the same state: one order per accessible market
         T = W + 1 if early == 0 else max(0, W - early)      # market time at the decision
@@ -132,7 +133,7 @@ def fcn_cases(tier, seed):
         ag.setup(settings={"cashAmount": 1000, "assetVolume": 10, "fundamentalWeight": wF, "chartWeight": wC, "noiseWeight": wN,
                            "noiseScale": LN2, "timeWindowSize": W, "orderMargin": 10.0 if normal else margin,
                            "marginType": "normal" if normal else "fixed",
-                           "meanReversionTime": tr}, accessible_markets_ids=list(mks))
+                           "meanReversionTime": tr_cfg}, accessible_markets_ids=list(mks))
         st, orders = call(ag, mkts)
         # independent evaluation of the documented formula
         f_lr = (1.0 / max(tr, 1)) * math.log(F / P)
@@ -176,7 +177,7 @@ def mm_cases(tier, seed):
                 m._add_order(Order(agent_id=99, market_id=j, is_buy=False, kind=LIMIT_ORDER, volume=2, price=float(bs)))
             mkts.append(m)
             bests.append([bool(acc[j]), bb * FDEN, bs * FDEN])
-        sn, sd = rng.choice([(1, 8), (1, 4), (1, 16), (3, 16), (1, 64)])
+        sn, sd = rng.choice([(1, 8), (1, 4), (1, 16), (3, 16), (1, 64), (1, 1), (2, 1)])      # (spreads so wide that the bid is below zero)
         ttl = rng.choice([1, 2, 5])
         ag = MarketMakerAgent(agent_id=3, prng=random.Random(1), simulator=sim, name="mm")
         ag.setup(settings={"cashAmount": 1000, "assetVolume": 10, "targetMarket": "m0", "netInterestSpread": sn / sd, "orderTimeLength": ttl},
